@@ -16,7 +16,7 @@ from black_it.loss_functions.likelihood import LikelihoodLoss
 from black_it.loss_functions.minkowski import MinkowskiLoss
 from black_it.loss_functions.msm import MethodOfMomentsLoss
 from harness.common import Case, f
-from harness.losses import AckFun, SymC, loss_world
+from harness.losses import per_series_filter, reducing_filter, AckFun, SymC, loss_world
 from symx.core import UF_EXP, UF_LOG, UF_POW, UF_SQRT, Sym, canon, is_sym, lift
 
 LEVEL = "other"
@@ -63,14 +63,7 @@ def _filters(D, N, which):
     G = [AckFun(f"filter{i}", nout=N) for i in range(D)]
 
     def mk(i):
-        def flt(series):
-            out = G[i](list(series))
-            a = np.empty(N, dtype=object)
-            for k in range(N):
-                a[k] = out[k]
-            return a
-
-        return flt
+        return per_series_filter(G[i], N, f"filter {i}")
 
     if which == "none":
         return None, [None] * D
@@ -93,10 +86,7 @@ def _weights(ctx, D, mode):
 
 
 def _cfilter(k):
-    def flt(s):
-        return np.asarray(s) * (k + 2.0) + (k + 1.0)
-
-    return flt
+    return reducing_filter(k)
 
 
 def _concrete(v, E, N, D, pos=False):
@@ -336,6 +326,14 @@ _CR = [0.25, 1.0, 0.0, 0.75, 0.4375, 0.875]
 _CS = [0.0, 0.3125, 1.0, 0.5625, 0.8125, 0.125]
 
 
+def _cr(n):
+    return _CR[n % 6] + (n // 6) / 32.0  # distinct values for series longer than the table
+
+
+def _cs(n, e):
+    return _CS[(n + 2 * e) % 6] + (n // 6) / 64.0
+
+
 def _gsl_ref_member(sim_sym, obs_sym, L, V, T):
     """tuple-counting reference for one ensemble member (concrete symbols)."""
     tot = 0.0
@@ -375,9 +373,9 @@ def case_gsl(V, L, E, N, symreal=False, symsim=True, defaults=False, prior_n=0):
             warnings.simplefilter("ignore")
             sim, real = _sym_data(ctx, E, N, 1)
             if not symreal:
-                real = np.array([[_CR[n]] for n in range(N)], dtype=object)
+                real = np.array([[_cr(n)] for n in range(N)], dtype=object)
             if not symsim:
-                sim = np.array([[[_CS[(n + 2 * e) % 6]] for n in range(N)] for e in range(E)], dtype=object)
+                sim = np.array([[[_cs(n, e)] for n in range(N)] for e in range(E)], dtype=object)
             loss = GslDivLoss() if defaults else GslDivLoss(nb_values=V, nb_word_lengths=L)
             _gsl_prior_call(loss, prior_n)
             # symbolisation (forks over bin assignments) vs 'number of edges strictly below'
@@ -412,9 +410,9 @@ def case_gsl(V, L, E, N, symreal=False, symsim=True, defaults=False, prior_n=0):
     def replay(cex):
         sim, real = _concrete(cex.values, E, N, 1)
         if not symreal:
-            real = np.array([[_CR[n]] for n in range(N)], dtype=float)
+            real = np.array([[_cr(n)] for n in range(N)], dtype=float)
         if not symsim:
-            sim = np.array([[[_CS[(n + 2 * e) % 6]] for n in range(N)] for e in range(E)], dtype=float)
+            sim = np.array([[[_cs(n, e)] for n in range(N)] for e in range(E)], dtype=float)
         loss = GslDivLoss() if defaults else GslDivLoss(nb_values=V, nb_word_lengths=L)
         try:
             _gsl_prior_call(loss, prior_n)
@@ -577,7 +575,7 @@ def cases(tier, seed):
         cs.append(case_fourier("ideal", 0.8, 2, 5, 2, "sym", "mixed"))
         for V, L, E, N, sr, ssm in [(4, 2, 1, 4, False, True), (3, 3, 1, 4, True, False), (2, 2, 2, 3, False, True), (3, 2, 1, 3, True, True), (4, 3, 1, 5, False, True)]:
             cs.append(case_gsl(V, L, E, N, sr, ssm))
-        cs.append(case_gsl(3, 3, 1, 7, False, True, defaults=True, prior_n=4))
+        cs.append(case_gsl(2, 2, 1, 6, False, True, defaults=True, prior_n=4))
         cs.append(case_gsl(2, 2, 2, 6, True, False, defaults=True, prior_n=12))
         cs.append(case_likelihood("silverman", 3, 2, 3, 2, "mixed"))
         cs.append(case_likelihood(0.5, 2, 3, 2, 3, "all"))
